@@ -451,6 +451,15 @@ theorem readFrame_exact (s p rest : Bytes) (h : readFrame s = .ok (p, rest)) :
 theorem readFrame_writeFrame (p rest : Bytes) (hp : p.length < 2 ^ 31) :
     readFrame (writeFrame p ++ rest) = .ok (p, rest) := readFrame_write p rest hp
 
+/-- (5) Parsing is a function of the frame bytes alone (and of kmsg's fixed flexibility table): the model has no
+parser state, so whatever other connections parse before or at the same time, equal frames give equal results.
+Trivial in the model — it NAMES the assumption "no shared mutable state between parses", which the code could break
+(e.g. a shared, mutated kmsg request value); the concurrent + race-detector scenario of checks/C10.py validates it
+against the current code on every run. -/
+theorem parse_depends_only_on_frame (flex : Int → Int → Bool) (others : List Bytes) (b₁ b₂ : Bytes) (h : b₁ = b₂) :
+    (others.map (parseHeader flex), parseHeader flex b₁).2 = parseHeader flex b₂ := by
+  subst h; rfl
+
 /-! non-vacuity: the hypotheses are satisfiable and the conclusions are not trivially `err` -/
 example : Header.wf { key := 3, ver := 9, corr := -7, clientId := some [0x61, 0x62] } :=
   ⟨by decide, by decide, by decide, by decide, by decide, by decide,
